@@ -47,6 +47,36 @@ def code_kind(code):
     return None if k < 0 else k
 
 
+_tl = threading.local()
+_INSTR_TOOL = 4
+_instr_enabled: set = set()
+_instr_ready = [False]
+
+
+def _instr_cb(code, offset):
+    tr = getattr(_tl, "tr", None)
+    if tr is not None and tr.sched is not None and tr.tripped is None:
+        tr.sched.step(tr, 1, None, instr=True)
+
+
+def enable_instruction_events(code):
+    """Instruction-granularity pre-emption points inside one code object (used
+    for the few functions that touch module-level mutable state: a one-line
+    read-modify-write of a counter or cache cannot be split at line events)."""
+    if code in _instr_enabled:
+        return
+    _instr_enabled.add(code)
+    try:
+        mon = sys.monitoring
+        if not _instr_ready[0]:
+            mon.use_tool_id(_INSTR_TOOL, "mashumaro-sim")
+            mon.register_callback(_INSTR_TOOL, mon.events.INSTRUCTION, _instr_cb)
+            _instr_ready[0] = True
+        mon.set_local_events(_INSTR_TOOL, code, mon.events.INSTRUCTION)
+    except Exception:
+        pass  # line granularity only
+
+
 _gstate_cache: dict = {}
 
 
@@ -123,8 +153,11 @@ class OpTrace:
                 self.gflag = False
             else:
                 self.gflag = code_gstate(frame.f_code, frame.f_globals)
-                if self.gflag and len(self.gsteps) < 400:
-                    self.gsteps.append(self.steps)
+                if self.gflag:
+                    if len(self.gsteps) < 400:
+                        self.gsteps.append(self.steps)
+                    if self.sched is not None:
+                        enable_instruction_events(frame.f_code)
             self.digest = (self.digest * 1000003 + (self.tid << 40) + (kind << 20)
                            + frame.f_lineno) % M61
             if self.steps == self.abort_at or (
@@ -151,6 +184,7 @@ def run_traced(fn, tr: OpTrace):
     """Run fn() on the current thread under tr; returns ("ok", value) or
     ("exc", exception)."""
     old = sys.gettrace()
+    _tl.tr = tr
     sys.settrace(tr.tracer)
     try:
         try:
@@ -163,6 +197,7 @@ def run_traced(fn, tr: OpTrace):
             return ("exc", e)
     finally:
         sys.settrace(old)
+        _tl.tr = None
 
 
 # --------------------------------------------------------------------------
@@ -319,8 +354,11 @@ class Sched:
         self.finished_detached = 0
         self.deadlocked = []
 
-    # called from OpTrace.local on the running thread
-    def step(self, tr, kind, frame):
+    # called from OpTrace.local on the running thread (and, with instr=True, from
+    # the instruction callback inside functions touching module-level state)
+    def step(self, tr, kind, frame, instr=False):
+        if instr:
+            tr.gflag = True
         if tr.tid in self.blocked:
             # this thread was blocked on a real lock of the code under test, the
             # baton was taken away from it by the watchdog; now that it woke up
